@@ -623,9 +623,9 @@ func init() {
 			ThoroughTime: 10 * time.Minute,
 			Components: map[string]string{
 				"JSONWtr, editor, Selection (nodeutil/json_wtr*.go, node/edit.go)": "real",
-				"parser/compiler for the generated two-module schema":             "real",
-				"source tree node (mnode)":                                        "harness",
-				"output stream (simio.Writer)":                                    "simulated",
+				"parser/compiler for the generated two-module schema":              "real",
+				"source tree node (mnode)":                                         "harness",
+				"output stream (simio.Writer)":                                     "simulated",
 			},
 		}
 		c.Run = func(i int, seed uint64, tier string) RunOut {
